@@ -19,7 +19,7 @@
     Everything the optimizer does not look into (aggregation, sort, distinct, left join) only has to
     be a function of the sub-plans' rows for the C09 theorems; it is modelled as far as the check
     compares it with the engine (the check says which plans that is). *)
-From Coq Require Import ZArith List Bool String.
+From Coq Require Import ZArith List Bool String Permutation.
 Import ListNotations.
 Open Scope Z_scope.
 
@@ -476,6 +476,26 @@ Fixpoint stack_sig (p : plan) : list (expr * expr) :=
   | PSort _ i | PSkip _ i | PLimit _ i | PDistinct i => stack_sig i
   | PJoin _ _ l r | PLeftJoin l r | PUnion l r => stack_sig l ++ stack_sig r
   | PEmpty | PScan _ _ => []
+  end.
+
+(** ** Bags of rows up to the order of columns *)
+(** two rows are the same binding when every column reads the same in both *)
+Definition row_equiv (a b : row) : Prop := forall x, lookup x a = lookup x b.
+
+(** an observation of a row that only depends on what its columns read *)
+Definition respects {T : Type} (f : row -> T) : Prop := forall a b, row_equiv a b -> f a = f b.
+
+(** bag equality up to column order: no observation can tell the two bags apart *)
+Definition bag_eqv (l1 l2 : list row) : Prop :=
+  forall (T : Type) (f : row -> T), respects f -> Permutation (map f l1) (map f l2).
+
+(** the product of row lists (what a join without usable condition computes) *)
+Definition cross (A B : list row) : list row := flat_map (fun a => map (fun b => a ++ b) B) A.
+
+Fixpoint cross_all (Ls : list (list row)) : list row :=
+  match Ls with
+  | [] => [[]]
+  | A :: Ls' => cross A (cross_all Ls')
   end.
 
 (** ** Structural equality of plans (used to compare dumps of the implementation's plans) *)
